@@ -264,8 +264,6 @@ func (tf *TextField) insertStringAtCursor(s string) {
 		next         = strings.Builder{}
 	)
 
-	count := graphemeCountInString(s)
-
 	for {
 		if len(rest) > 0 && i < tf.cursor {
 			cluster, rest, _, state = uniseg.FirstGraphemeClusterInString(rest, state)
@@ -275,8 +273,9 @@ func (tf *TextField) insertStringAtCursor(s string) {
 		}
 		// insert the string
 		next.WriteString(s)
-		// advance the cursor
-		tf.cursor += count
+		// the cursor goes behind the inserted text, which may have joined
+		// the cluster before it (a combining mark typed after its base)
+		tf.cursor = graphemeCountInString(next.String())
 		next.WriteString(rest)
 		break
 	}
